@@ -20,6 +20,7 @@
 #include <fcppt/container/raw_vector/object.hpp>
 #include <fcppt/optional/object.hpp>
 
+#include <algorithm>
 #include <forward_list>
 #include <iterator>
 #include <map>
@@ -34,6 +35,8 @@ struct alloc_registry
 {
   std::map<void *, std::size_t> live;
   std::uint64_t allocs = 0;
+  bool fail_next = false; // environment deviation: the next allocation throws std::bad_alloc
+  bool injected = false;  // ... and it did
 };
 static alloc_registry &reg()
 {
@@ -48,6 +51,12 @@ template <class T> struct counting_alloc
   template <class U> counting_alloc(counting_alloc<U> const &) {}
   T *allocate(std::size_t n)
   {
+    if (reg().fail_next)
+    {
+      reg().fail_next = false;
+      reg().injected = true;
+      throw std::bad_alloc();
+    }
     void *p = ::operator new(n * sizeof(T) + (n == 0 ? 1 : 0));
     reg().live[p] = n;
     ++reg().allocs;
@@ -146,6 +155,7 @@ enum kind
   B_SWAP,        // with second buffer
   B_TO_RAW,      // convert into the raw_vector slot (buffer becomes released)
   B_READ_FROM,   // a=size b=k: read_from<buf>
+  ARM_ALLOC_FAILURE = 200, // environment deviation (at most one per history): the next allocation throws
 };
 
 static int SIZE_CAP = 4;
@@ -157,10 +167,13 @@ struct vec_sys
   std::optional<rv> x[2];
   ref m[2];
   int next_val = 0;
+  int fault = 0; // 0 none yet, 1 armed, 2 used
 
   vec_sys()
   {
     reg().live.clear();
+    reg().fail_next = false;
+    reg().injected = false;
     for (int i = 0; i < NVEC; ++i)
       x[i].emplace();
   }
@@ -180,6 +193,8 @@ struct vec_sys
   std::vector<op> enabled() const
   {
     std::vector<op> r;
+    if (fault == 0)
+      r.push_back(op{ARM_ALLOC_FAILURE, 0, 0, 0, 0});
     for (int t = 0; t < NVEC; ++t)
     {
       int const n = static_cast<int>(m[t].size());
@@ -259,12 +274,49 @@ struct vec_sys
                            "insert(pos,forward-range)", "insert(pos,self[i])", "push_back(self[i])", "insert(pos,n,self[i])",
                            "erase(pos)", "erase(i,j)", "resize(n,val)", "reserve(mode)", "shrink_to_fit", "clear", "self[i]=val",
                            "swap(other)", "swap(a,b)", "other=object(move(self))", "other=move(self)"};
+    if (o.k == ARM_ALLOC_FAILURE)
+      return "next allocation throws";
     std::string n = (o.k >= 1 && o.k <= MOVE_ASSIGN) ? names[o.k] : "?";
     return std::string(o.d == 0 ? "X." : "Y.") + n + "<" + std::to_string(o.a) + "," + std::to_string(o.b) + "," +
            std::to_string(o.c) + ">";
   }
 
+  // An injected allocation failure must surface as std::bad_alloc and leave every vector valid
+  // (destructible, size <= capacity, storage = one live block); the model adopts what the
+  // implementation left (basic guarantee), the registry checks catch double frees and leaks.
   void apply(op const &o)
+  {
+    if (o.k == ARM_ALLOC_FAILURE)
+    {
+      fault = 1;
+      reg().fail_next = true;
+      return;
+    }
+    reg().fail_next = fault == 1;
+    try
+    {
+      apply_inner(o);
+    }
+    catch (std::bad_alloc const &)
+    {
+      VRT_CHECK(reg().injected, "raw_vector:bad_alloc_without_failure", "std::bad_alloc although no allocation failure was injected");
+      for (int t = 0; t < NVEC; ++t)
+      {
+        if (!x[t])
+          x[t].emplace();
+        rv &v = *x[t];
+        if (v.size() <= v.capacity() && v.size() <= 64)
+          m[t].assign(v.begin(), v.end());
+        else
+          vrt::fail("raw_vector:invalid_after_bad_alloc", "size > capacity after an allocation failure");
+      }
+    }
+    if (reg().injected)
+      fault = 2;
+    reg().fail_next = false;
+  }
+
+  void apply_inner(op const &o)
   {
     int const t = o.d, u = 1 - o.d;
     rv &v = *x[t];
@@ -493,6 +545,7 @@ struct vec_sys
       r += v.data() == nullptr ? "n" : "p";
       r += ";";
     }
+    r += "f" + std::to_string(fault);
     return r;
   }
 };
@@ -511,10 +564,13 @@ struct buf_sys
   ref mout;
   bool has_out = false;
   int counter = 0; // values written are 10,11,12,... so that every element is distinguishable
+  int fault = 0;   // 0 none yet, 1 armed, 2 used
 
   buf_sys()
   {
     reg().live.clear();
+    reg().fail_next = false;
+    reg().injected = false;
     b[0].emplace(0U);
     b[1].emplace(1U);
     ws[1] = 1;
@@ -534,6 +590,8 @@ struct buf_sys
   std::vector<op> enabled() const
   {
     std::vector<op> r;
+    if (fault == 0)
+      r.push_back(op{ARM_ALLOC_FAILURE, 0, 0, 0, 0});
     for (int t = 0; t < 2; ++t)
     {
       auto add = [&](int k, int a = 0, int bb = 0) { r.push_back(op{k, a, bb, 0, t}); };
@@ -579,11 +637,57 @@ struct buf_sys
     case B_SWAP: n = "swap(other)"; break;
     case B_TO_RAW: n = "to_raw_vector"; break;
     case B_READ_FROM: n = "self=read_from(size,k)"; break;
+    case ARM_ALLOC_FAILURE: return "next allocation throws";
     }
     return std::string(o.d == 0 ? "A." : "B.") + n + "<" + std::to_string(o.a) + "," + std::to_string(o.b) + ">";
   }
 
   void apply(op const &o)
+  {
+    if (o.k == ARM_ALLOC_FAILURE)
+    {
+      fault = 1;
+      return;
+    }
+    reg().fail_next = fault == 1;
+    try
+    {
+      apply_inner(o);
+    }
+    catch (std::bad_alloc const &)
+    {
+      VRT_CHECK(reg().injected, "buffer:bad_alloc_without_failure", "std::bad_alloc although no allocation failure was injected");
+      reg().fail_next = false;
+      for (int t = 0; t < 2; ++t)
+      {
+        if (!b[t])
+        {
+          b[t].emplace(0U);
+          rd[t].clear();
+          ws[t] = 0;
+          continue;
+        }
+        // basic guarantee: whatever is left must be a valid buffer; adopt it (check() verifies the storage)
+        buf &x = *b[t];
+        if (x.read_size() <= 64 && x.write_size() <= 64)
+        {
+          bool live = x.read_data() == nullptr || reg().live.count(const_cast<int *>(x.read_data())) != 0;
+          if (live)
+            rd[t].assign(x.begin(), x.end());
+          else
+            rd[t].assign(x.read_size(), 0);
+          ws[t] = x.write_size();
+        }
+        else
+          vrt::fail("buffer:invalid_after_bad_alloc", "implausible sizes after an allocation failure");
+      }
+    }
+    if (reg().injected)
+      fault = 2;
+    reg().fail_next = false;
+  }
+
+  void apply_inner(op const &o)
   {
     int const t = o.d, u = 1 - o.d;
     buf &x = *b[t];
@@ -786,9 +890,160 @@ struct buf_sys
         r += std::to_string(rn(v)) + ",";
       r += "]c" + std::to_string(std::min<std::size_t>(out->capacity() - out->size(), static_cast<std::size_t>(BUF_CAP) + 4));
     }
+    r += "f" + std::to_string(fault);
     return r;
   }
 };
+
+// ---------------------------------------------------------------- growth lattice (engine E)
+// The growth policy is a function of (capacity, requested size) only; the BFS above sees it for sizes
+// up to the cap.  Here every pair of a boundary lattice of capacities and requests up to 8193 elements
+// is tried through every bulk-growing entry point.
+static std::vector<std::size_t> size_lattice()
+{
+  std::vector<std::size_t> l{0, 1, 2, 3, 4, 5, 6, 7, 9, 12, 100, 1000, 1536, 3000, 6000};
+  for (std::size_t p = 8; p <= 8192; p *= 2)
+  {
+    l.push_back(p - 1);
+    l.push_back(p);
+    l.push_back(p + 1);
+  }
+  std::sort(l.begin(), l.end());
+  l.erase(std::unique(l.begin(), l.end()), l.end());
+  return l;
+}
+
+static void check_vec(rv &v, ref const &want, char const *what, std::size_t min_cap)
+{
+  VRT_CHECK(v.size() == want.size(), std::string("raw_vector_growth:size:") + what, "size %zu, expected %zu", v.size(), want.size());
+  VRT_CHECK(v.capacity() >= v.size() && v.capacity() >= min_cap, std::string("raw_vector_growth:capacity:") + what,
+            "capacity %zu, size %zu, requested %zu", v.capacity(), v.size(), min_cap);
+  if (v.data() != nullptr)
+  {
+    auto it = reg().live.find(v.data());
+    VRT_CHECK(it != reg().live.end() && it->second == v.capacity(), std::string("raw_vector_growth:storage_block:") + what,
+              "storage is not a live block of capacity() elements");
+  }
+  if (v.size() == want.size() && v.size() <= v.capacity())
+    VRT_CHECK(ref(v.begin(), v.end()) == want, std::string("raw_vector_growth:contents:") + what, "contents differ from std::vector");
+}
+
+static void raw_vector_growth()
+{
+  std::vector<std::size_t> const lat = size_lattice();
+  for (std::size_t c : lat)
+    for (std::size_t fill : {std::size_t(0), c / 2, c})
+      for (std::size_t r : lat)
+      {
+        if (r <= c)
+          continue;
+        for (int entry = 0; entry < 5; ++entry)
+        {
+          if (!vrt::begin("raw_vector_growth", c, fill, r, entry))
+            continue;
+          vrt::nontrivial(r > 2 * c || c >= 1024);
+          vrt::maybe_sample();
+          reg().live.clear();
+          reg().fail_next = false;
+          {
+            rv v;
+            ref m;
+            v.reserve(c);
+            for (std::size_t i = 0; i < fill; ++i)
+            {
+              v.push_back(static_cast<int>(i % 251));
+              m.push_back(static_cast<int>(i % 251));
+            }
+            std::size_t const grow = r - fill;
+            std::size_t const at = fill / 2;
+            switch (entry)
+            {
+            case 0:
+              v.reserve(r);
+              check_vec(v, m, "reserve", r);
+              break;
+            case 1:
+              v.insert(v.begin() + static_cast<std::ptrdiff_t>(at), grow, 7);
+              m.insert(m.begin() + static_cast<std::ptrdiff_t>(at), grow, 7);
+              check_vec(v, m, "insert_n", r);
+              break;
+            case 2:
+            {
+              ref src(grow, 9);
+              v.insert(v.begin() + static_cast<std::ptrdiff_t>(at), src.begin(), src.end());
+              m.insert(m.begin() + static_cast<std::ptrdiff_t>(at), src.begin(), src.end());
+              check_vec(v, m, "insert_forward_range", r);
+              break;
+            }
+            case 3:
+              v.resize(r, 5);
+              m.resize(r, 5);
+              check_vec(v, m, "resize", r);
+              break;
+            case 4:
+            {
+              ref src(grow, 3);
+              v.insert(v.begin() + static_cast<std::ptrdiff_t>(at), input_it{src.data()}, input_it{src.data() + src.size()});
+              m.insert(m.begin() + static_cast<std::ptrdiff_t>(at), src.begin(), src.end());
+              check_vec(v, m, "insert_input_range", r);
+              break;
+            }
+            }
+            // the vector must stay usable: one more element, then shrink
+            v.push_back(1);
+            m.push_back(1);
+            check_vec(v, m, "push_back_after", m.size());
+          }
+          VRT_CHECK(reg().live.empty(), "raw_vector_growth:leak", "%zu block(s) live after destruction", reg().live.size());
+        }
+      }
+}
+
+static void buffer_growth()
+{
+  std::vector<std::size_t> const lat = size_lattice();
+  for (std::size_t c : lat)
+    for (std::size_t fill : {std::size_t(0), c / 2, c})
+      for (std::size_t r : lat)
+      {
+        if (!vrt::begin("buffer_growth", c, fill, r))
+          continue;
+        vrt::nontrivial(fill + r > c);
+        vrt::maybe_sample();
+        reg().live.clear();
+        reg().fail_next = false;
+        {
+          buf b(c);
+          ref m;
+          int *w = b.write_data();
+          for (std::size_t i = 0; i < fill; ++i)
+          {
+            w[i] = static_cast<int>(i % 251);
+            m.push_back(static_cast<int>(i % 251));
+          }
+          b.written(fill);
+          b.resize_write_area(r);
+          VRT_CHECK(b.write_size() == r && b.read_size() == fill, "buffer_growth:sizes", "read %zu write %zu after resize_write_area(%zu) with %zu read",
+                    b.read_size(), b.write_size(), r, fill);
+          auto it = reg().live.find(const_cast<int *>(b.read_data()));
+          VRT_CHECK(b.read_data() == nullptr ? (fill + r == 0) : (it != reg().live.end() && it->second >= fill + r), "buffer_growth:storage_block",
+                    "allocation smaller than read area + write area");
+          int *w2 = b.write_data();
+          for (std::size_t i = 0; i < r; ++i) // the whole write area must be writable (ASan checks the block)
+            w2[i] = 77;
+          VRT_CHECK(ref(b.begin(), b.end()) == m, "buffer_growth:read_area", "read area changed by resize_write_area");
+          b.written(r);
+          for (std::size_t i = 0; i < r; ++i)
+            m.push_back(77);
+          rv v = fcppt::container::buffer::to_raw_vector(std::move(b));
+          check_vec(v, m, "to_raw_vector", m.size());
+          v.push_back(1);
+          m.push_back(1);
+          check_vec(v, m, "push_back_after_to_raw_vector", m.size());
+        }
+        VRT_CHECK(reg().live.empty(), "buffer_growth:leak", "%zu block(s) live after destruction", reg().live.size());
+      }
+}
 
 int main(int argc, char **argv)
 {
@@ -817,5 +1072,7 @@ int main(int argc, char **argv)
     vrt::hist::explorer<buf_sys> e("buffer", l);
     e.run();
   }, 7200);
+  vrt::shard("raw_vector_growth_lattice", [] { raw_vector_growth(); });
+  vrt::shard("buffer_growth_lattice", [] { buffer_growth(); });
   return vrt::run(argc, argv);
 }
